@@ -87,10 +87,77 @@ def run(chk, tier):
         chk.ok("R16.4", "get_adjusted_datetime")
     else:
         chk.bad("R16.4", "get_adjusted_datetime", "zone lookup / conversion changed: %s" % [lib.short(c) for c in cal][:6], adj.file)
+    # ---- R16.4b the adjusted date-time is the SAME instant in the named zone: with_timezone(this, parsed zone) and nothing else
+    import mirq
+    ex = mirq.call_exprs(mirq.BodyQ(adj), drop=None)
+    wt = [e for e in ex if e.startswith("DateTime::with_timezone(")]
+    if wt == ["DateTime::with_timezone(p1, FromStr::from_str<Tz>(p2).Ok.0)"] and not [e for e in ex if re.search(r"offset_from|FixedOffset|date_naive|and_hms|midnight|naive_utc", e)]:
+        chk.ok("R16.4", "get_adjusted_datetime|same instant, named zone", wt[0])
+    else:
+        chk.bad("R16.4", "get_adjusted_datetime|same instant, named zone", "the zoned accessors must read the civil fields of the instant itself in the named zone (this.with_timezone(zone)); found %s" % [e[:90] for e in ex][:6], adj.file)
+    # ---- R16.5 unit tables: into_<quantity> and from_<quantity> use the same uom unit per variant (identity / invertibility need it)
+    chk.rule("R16.5", "unit tables: for every unit variant, the constructor into_<q> and the reader from_<q> name the same uom unit; every variant is listed")
+    chk.rule("R16.6", "uomConvert parses BOTH unit names before it can succeed, converts only within one quantity, and fails otherwise")
+    UOM = "rscel::context::default_funcs::uom::"
+    nun = 0
+    for enum, into_, from_ in (("MassUnit", "into_mass", "from_mass"), ("VolumeUnit", "into_volume", "from_volume"), ("SpeedUnit", "into_velocity", "from_velocity"), ("TemperatureUnit", "into_temperature", "from_temperature")):
+        tabs = {}
+        for fn in (into_, from_):
+            b = F.body(UOM + enum + "::" + fn)
+            q = mirq.BodyQ(b)
+            sws = q.switches_on(F, UOM + enum)
+            tab = {}
+            if len(sws) == 1:
+                sblk, _pl, arms, other = sws[0]
+                for var, tgt in arms.items():
+                    region = q.exclusive_region(sblk, tgt, list(arms.values()) + [other])
+                    us = []
+                    for i, t in b.calls():
+                        if i in region:
+                            rid, pth, c = lib.callee_of(t)
+                            if c and re.search(r"::(new|get)$", pth) and c.get("gargs"):
+                                us.append(c["gargs"][-1].split("::")[-1])
+                    tab[var] = us
+            tabs[fn] = tab
+        adt = [a for a in F.adts.values() if a["path"] == UOM + enum][0]
+        variants = [v["name"] for v in adt["variants"]]
+        for v in variants:
+            a_, b_ = tabs[into_].get(v), tabs[from_].get(v)
+            nun += 1
+            if a_ and a_ == b_ and len(a_) == 1:
+                chk.ok("R16.5", "%s::%s" % (enum, v), a_[0])
+            else:
+                chk.bad("R16.5", "%s::%s" % (enum, v), "unit %s::%s is built from %s but read back as %s: converting a unit to itself would not be the identity and conversions would not invert" % (enum, v, a_, b_), "rscel/src/context/default_funcs/uom.rs")
+    chk.floor("R16.5", "unit variants", nun, 30)
+    ub = F.body(UOM + "uom_convert_internal")
+    qu = mirq.BodyQ(ub)
+    fs = qu.call_sites(r"uom::Unit::from_str$")
+    oks = [i for (i, a_, v_, s_) in qu.aggregates(adt_suffix="result::Result") if v_ == "Ok"]
+    parsed = sorted(mirq.expr_of(qu, t["args"][0]) for i, t, pth in fs)
+    dom_ok = all(all(ub.dominates(f[0], o) for f in fs) for o in oks)
+    if parsed == ["p2", "p3"] and oks and dom_ok:
+        chk.ok("R16.6", "both unit names parsed before any success", {"ok_sites": len(oks)})
+    else:
+        chk.bad("R16.6", "both unit names parsed before any success", "uom_convert_internal can return Ok on a path where the unit names %s were not both parsed (unknown units must fail, also when both names are equal)" % parsed, ub.file)
+    # same-quantity arms only: each Ok site is reached under matching variants of both parsed units
+    sw = qu.switches_on(F, UOM + "Unit")
+    cats = {}
+    for o in oks:
+        conds = []
+        for sblk, pl, arms, other in sw:
+            if ub.dominates(sblk, o):
+                hit = [v for v, tgt in arms.items() if tgt == o or ub.dominates(tgt, o)]
+                if len(hit) == 1:
+                    conds.append(hit[0])
+        cats[o] = conds
+    if oks and all(len(c) == 2 and c[0] == c[1] for c in cats.values()) and sorted(c[0] for c in cats.values()) == ["Mass", "Speed", "Temperature", "Volume"]:
+        chk.ok("R16.6", "conversion only within one quantity", sorted(c[0] for c in cats.values()))
+    else:
+        chk.bad("R16.6", "conversion only within one quantity", "success sites of uom_convert_internal are reached under unit categories %s; a conversion must require the same quantity on both sides" % sorted(map(str, cats.values())), ub.file)
     chk.analysed["accessor_overloads"] = n
     return chk.finish(
         "Sibling agreement and frozen accessor rows for the ten calendar accessors (UTC vs zoned overloads, from resolved callees), checked chrono "
-        "arithmetic in +/-, zone lookup. Decides wiring and bases; does not decide the calendar laws themselves nor uomConvert (unit tables are "
-        "type-level `uom` generics - not decided).",
+        "arithmetic in +/-, zone lookup. Unit tables: constructor / reader unit agreement per variant (generic arguments of the uom calls), both names parsed before success, "
+        "same-quantity arms only. Decides wiring and bases; does not decide the calendar laws themselves nor uom's numeric factors.",
         ["chrono accessor contracts (month0, ordinal0, num_days_from_sunday, ...)", "rustc trait resolution"], ["default features"],
         technique="sibling cross-check + frozen callee rows over resolved MIR callees")
